@@ -16,13 +16,14 @@
 //          i: stays open while a control exchange runs, then as h
 //        -> "sess <id> wr=<written>/<total> rx=<hex of the first bytes nng sent|-> eof=<0|1> add=<n> rem=<n>
 //            pipes=<id,..|-> ctl=<ok|FAIL:why> n=<k> [D <pipe> <hdr> <body>]..."   (all non-control deliveries)
-//   dgram <id> <fresh 0|1> <close 0|1> <datagram-hex>...      (udp only)
-//        fresh: use a new UDP socket (unknown peer) else the session socket; the datagrams are sent in order;
-//        each is followed by a control exchange as a barrier; close: forget the session socket afterwards
-//        -> "dgram <id> rx=<n datagrams nng sent back: op codes> ctl=.. n=<k> [D ...]"
+//   dgram <id> <nsrc> <src>:<replies>.<adds>.<reaps>.<barrier>.<deliveries>:<datagram-hex>...   (udp only, see cmd_dgram)
+//        -> "dgram <id> rx=<what nng sent to each sender: c = CACK, d<reason> = DISC> wt=<timed-out waits> ctl=..
+//            ports=<sender ports> pipes=<id>@<peer port>,.. n=<k> [D ...]"
+//   dflood <id> <n> <datagram-hex>...      (udp only) n senders, no waiting in between
 //   flood <id> <n> <bytes-hex|->   n connections each writing the bytes, all held open during a control
 //        exchange, then closed            -> "flood <id> opened=<k> ctl=<..> add=<n> rem=<n> n=<k> [D ...]"
 //   ctl                            one control exchange            -> "ctl ok" | "ctl FAIL:<why>"
+//   ctl_burst <n> [<fill>]         n control messages (fill: extra payload bytes) back to back, all must arrive (nothing is repeated)
 //   ctl_drop / ctl_connect         PAIR: the control peer disconnects / reconnects
 //   close                          close the socket; everything must be torn down
 //        -> "close ok add=<n> rem=<n> ctl_eof=<0|1> n=<k> [D ...]"
@@ -47,7 +48,7 @@
 #include <time.h>
 #include <unistd.h>
 
-#define TMO 5000
+static int TMO = 10000; // every bounded wait (ms); env C11_TMO
 #define HEXLIMIT 128
 enum { T_TCP, T_IPC, T_SFD, T_WS, T_UDP };
 enum { P_PAIR0, P_PAIR1, P_REP, P_REQ, P_SUB, P_PULL, P_BUS, P_SURVEYOR, P_RESPONDENT };
@@ -79,7 +80,9 @@ typedef struct {
 } delivery;
 static delivery *dlog;
 static size_t    ndlog, capdlog;
+static size_t    nhostile; // deliveries that did not come from the control pipe
 static uint32_t *added; // ids in ADD_POST order
+static uint16_t *aport; // udp: source port of the peer of added[i]
 static uint8_t  *gone;  // added[i] has had its REM_POST
 static size_t    nadded, capadded, nremoved, nrem_unadded; // nrem_unadded: REM_POST for pipes that never had ADD_POST
 static bool      rx_stopped;
@@ -89,6 +92,8 @@ static int      ctl_fd = -1;
 static uint32_t ctl_pipe;
 static uint64_t ctl_seq;
 static int      udp_ctl_fd = -1;
+static int      udp_retries; // control exchanges over udp that had to be repeated
+static size_t   stuck_pipes; // pipes that did not go away within TMO after their connection ended (reported once, then part of the baseline)
 static struct sockaddr_in udp_addr; // nng's udp listener
 
 static int64_t
@@ -150,9 +155,17 @@ pipe_cb(nng_pipe p, nng_pipe_ev ev, void *arg)
 		if (nadded == capadded) {
 			capadded = capadded ? capadded * 2 : 256;
 			added    = realloc(added, capadded * sizeof(*added));
+			aport    = realloc(aport, capadded * sizeof(*aport));
 			gone     = realloc(gone, capadded);
 		}
-		gone[nadded]    = 0;
+		gone[nadded]  = 0;
+		aport[nadded] = 0;
+		if (tran == T_UDP) {
+			nng_sockaddr sa;
+			if (nng_pipe_peer_addr(p, &sa) == 0 && sa.s_family == NNG_AF_INET) {
+				aport[nadded] = ntohs(sa.s_in.sa_port);
+			}
+		}
 		added[nadded++] = (uint32_t) nng_pipe_id(p);
 	} else if (ev == NNG_PIPE_EV_REM_POST) {
 		uint32_t id = (uint32_t) nng_pipe_id(p);
@@ -190,6 +203,9 @@ log_msg(nng_msg *m)
 		dlog    = realloc(dlog, capdlog * sizeof(*dlog));
 	}
 	dlog[ndlog++] = d;
+	if (d.pipe != ctl_pipe) {
+		nhostile++;
+	}
 	pthread_cond_broadcast(&cv);
 	pthread_mutex_unlock(&mtx);
 }
@@ -343,6 +359,42 @@ wait_balanced(size_t keep, int ms)
 		}
 	}
 	ok = nadded - nremoved <= keep;
+	pthread_mutex_unlock(&mtx);
+	return (ok);
+}
+
+// REM_POST events seen (pipes that were added and pipes the socket refused alike) reach n
+static bool
+wait_reaped(size_t n, int ms)
+{
+	struct timespec ts;
+	bool            ok;
+	deadline(&ts, ms);
+	pthread_mutex_lock(&mtx);
+	while (nremoved + nrem_unadded < n) {
+		if (pthread_cond_timedwait(&cv, &mtx, &ts) != 0) {
+			break;
+		}
+	}
+	ok = nremoved + nrem_unadded >= n;
+	pthread_mutex_unlock(&mtx);
+	return (ok);
+}
+
+// n messages from pipes other than the control pipe have reached the application
+static bool
+wait_deliveries(size_t n, int ms)
+{
+	struct timespec ts;
+	bool            ok;
+	deadline(&ts, ms);
+	pthread_mutex_lock(&mtx);
+	while (nhostile < n) {
+		if (pthread_cond_timedwait(&cv, &mtx, &ts) != 0) {
+			break;
+		}
+	}
+	ok = nhostile >= n;
 	pthread_mutex_unlock(&mtx);
 	return (ok);
 }
@@ -583,7 +635,7 @@ ctl_connect(void)
 			return ("ctl-handshake");
 		}
 	}
-	if (!wait_added(before + 1, 1000)) {
+	if (!wait_added(before + 1, tran == T_UDP ? TMO : 1000)) {
 		return ("ctl-pipe-not-added");
 	}
 	pthread_mutex_lock(&mtx);
@@ -630,7 +682,7 @@ static int
 ctl_send(const uint8_t *payload, size_t len)
 {
 	if (tran == T_UDP) {
-		uint8_t d[8 + 256];
+		uint8_t d[8 + 8192];
 		udp_hdr(d, 0, peer_proto, (uint16_t) len, 0);
 		memcpy(d + 8, payload, len);
 		return (sendto(udp_ctl_fd, d, 8 + len, 0, (struct sockaddr *) &udp_addr, sizeof(udp_addr)) == (ssize_t) (8 + len)
@@ -645,14 +697,14 @@ ctl_send(const uint8_t *payload, size_t len)
 }
 
 static int
-ctl_recv(uint8_t **payload, size_t *plen)
+ctl_recv_ms(uint8_t **payload, size_t *plen, int ms)
 {
 	uint8_t rawhead[9];
 	if (tran == T_UDP) {
-		int64_t end = now_ms() + TMO;
+		int64_t end = now_ms() + ms;
 		while (now_ms() < end) {
 			uint8_t buf[2048];
-			ssize_t n = udp_recv(udp_ctl_fd, buf, sizeof(buf), 500);
+			ssize_t n = udp_recv(udp_ctl_fd, buf, sizeof(buf), (int) (end - now_ms()) + 1);
 			if (n >= 8 && buf[0] == 1 && buf[1] == 0) {
 				size_t l = buf[4] | ((size_t) buf[5] << 8);
 				if (l > (size_t) n - 8) {
@@ -674,7 +726,13 @@ ctl_recv(uint8_t **payload, size_t *plen)
 	if (tran == T_WS) {
 		return (ws_read_frame(ctl_fd, payload, plen));
 	}
-	return (rp_read_frame(ctl_fd, rp_kind_of(), 0, 1 << 20, payload, plen, rawhead, TMO));
+	return (rp_read_frame(ctl_fd, rp_kind_of(), 0, 1 << 20, payload, plen, rawhead, ms));
+}
+
+static int
+ctl_recv(uint8_t **payload, size_t *plen)
+{
+	return (ctl_recv_ms(payload, plen, TMO));
 }
 
 // one valid exchange through the control connection; NULL = worked
@@ -771,6 +829,38 @@ ctl_exchange(void)
 	}
 	memcpy(pl + n, tag, 8);
 	n += 8;
+	if (tran == T_UDP) {
+		// a datagram may be lost (in theory, on loopback): the exchange is repeated with the same tag;
+		// every wait is on the explicit condition (delivery logged / matching answer read)
+		const char *why = "ctl-write";
+		for (int attempt = 0; attempt < 3; attempt++) {
+			if (attempt > 0) {
+				udp_retries++; // loopback does not lose datagrams: every repetition is reported
+			}
+			if (ctl_send(pl, n) != 0) {
+				continue;
+			}
+			if (!wait_ctl_delivery(from, tag, TMO / 2)) {
+				why = "app-did-not-get-control-message";
+				continue;
+			}
+			if (!needs_reply()) {
+				return (NULL);
+			}
+			why = "ctl-did-not-get-reply";
+			for (int64_t end = now_ms() + TMO / 2; now_ms() < end;) {
+				if (ctl_recv_ms(&rp, &rl, (int) (end - now_ms()) + 1) != 0) {
+					break;
+				}
+				if (rl == 12 && memcmp(rp, pl, 12) == 0) {
+					free(rp);
+					return (NULL);
+				}
+				free(rp); // a duplicate of an earlier answer
+			}
+		}
+		return (why);
+	}
 	if (ctl_send(pl, n) != 0) {
 		return ("ctl-write");
 	}
@@ -793,6 +883,18 @@ ctl_exchange(void)
 static void
 ctl_drop(void)
 {
+	if (udp_ctl_fd >= 0) {
+		uint8_t d[8];
+		udp_hdr(d, 3, peer_proto, 0, 0); // DISC: nng closes the pipe of this sender
+		for (int attempt = 0; attempt < 4; attempt++) {
+			(void) sendto(udp_ctl_fd, d, 8, 0, (struct sockaddr *) &udp_addr, sizeof(udp_addr));
+			if (wait_balanced(0, TMO / 4)) {
+				break;
+			}
+		}
+		close(udp_ctl_fd);
+		udp_ctl_fd = -1;
+	}
 	if (ctl_fd >= 0) {
 		close(ctl_fd);
 		ctl_fd = -1;
@@ -818,6 +920,9 @@ print_deliveries(size_t from, size_t addfrom)
 	}
 	for (size_t i = addfrom; i < nadded; i++) {
 		printf("%s%" PRIu32, i > addfrom ? "," : "", added[i]);
+		if (tran == T_UDP) {
+			printf("@%u", (unsigned) aport[i]);
+		}
 	}
 	printf(" n=%zu", n);
 	for (size_t i = from; i < ndlog; i++) {
@@ -872,6 +977,7 @@ cmd_open(char **w, int nw)
 	nng_pipe_notify(sock, NNG_PIPE_EV_ADD_POST, pipe_cb, NULL);
 	nng_pipe_notify(sock, NNG_PIPE_EV_REM_POST, pipe_cb, NULL);
 	ndlog = nadded = nremoved = nrem_unadded = 0;
+	stuck_pipes                              = 0;
 	rx_stopped                = false;
 	switch (tran) {
 	case T_TCP:
@@ -971,7 +1077,8 @@ static void
 cmd_sess(char **w, int nw)
 {
 	size_t      dfrom, afrom, rfrom, total = 0, written = 0, kept = 0;
-	uint8_t     keep[16];
+	uint8_t     keep[4096];
+	size_t      keepcap = tran == T_WS ? sizeof(keep) : 16; // ws: every response head and close frame nng wrote
 	int         fd, eof = 0;
 	char        mode   = w[2][0];
 	bool        expect = w[3][0] == '1';
@@ -1021,11 +1128,15 @@ cmd_sess(char **w, int nw)
 			}
 		}
 		shutdown(fd, SHUT_WR);
-		eof = drain_until_eof(fd, keep, sizeof(keep), &kept, TMO);
+		eof = drain_until_eof(fd, keep, keepcap, &kept, TMO);
 		close(fd);
 	}
 	// every pipe this session caused must go away again
-	(void) wait_balanced(ctl_held ? 1 : 0, TMO);
+	if (!wait_balanced((ctl_held ? 1 : 0) + stuck_pipes, TMO)) {
+		pthread_mutex_lock(&mtx);
+		stuck_pipes = nadded - nremoved - (ctl_held ? 1 : 0);
+		pthread_mutex_unlock(&mtx);
+	}
 	if (ctl == NULL && ctl_held) {
 		ctl = ctl_exchange();
 	}
@@ -1074,7 +1185,11 @@ cmd_flood(char **w, int nw)
 			close(fds[i]);
 		}
 	}
-	(void) wait_balanced(1, TMO);
+	if (!wait_balanced(1 + stuck_pipes, TMO)) {
+		pthread_mutex_lock(&mtx);
+		stuck_pipes = nadded - nremoved - 1;
+		pthread_mutex_unlock(&mtx);
+	}
 	if (ctl == NULL) {
 		ctl = ctl_exchange();
 	}
@@ -1088,63 +1203,240 @@ cmd_flood(char **w, int nw)
 	free(b);
 }
 
-static int udp_sess_fd = -1;
+#define MAXSRC 16
 
+// replies nng sent to one session sender: op codes (DISC with its reason)
+typedef struct {
+	int    fd;
+	int    port;
+	int    nrep;
+	char   ops[256];
+} udp_src;
+
+static void
+src_collect(udp_src *u, int want, int ms)
+{
+	int64_t end = now_ms() + ms;
+	for (;;) {
+		uint8_t buf[2048];
+		int64_t left = end - now_ms();
+		ssize_t n;
+		size_t  l;
+		if (want >= 0 && u->nrep >= want) {
+			return;
+		}
+		n = udp_recv(u->fd, buf, sizeof(buf), want < 0 ? 0 : (left > 0 ? (int) left : 0));
+		if (n < 0) {
+			return; // nothing (more) within the time
+		}
+		l = strlen(u->ops);
+		if (l + 12 < sizeof(u->ops)) {
+			if (n >= 8 && buf[1] == 3) {
+				snprintf(u->ops + l, sizeof(u->ops) - l, "%sd%d", l ? "," : "", buf[4] | (buf[5] << 8));
+			} else if (n >= 8 && buf[1] == 2) {
+				snprintf(u->ops + l, sizeof(u->ops) - l, "%sc", l ? "," : "");
+			} else {
+				snprintf(u->ops + l, sizeof(u->ops) - l, "%s?%d", l ? "," : "", n >= 2 ? buf[1] : -1);
+			}
+		}
+		u->nrep++;
+	}
+}
+
+// dgram <id> <nsrc> <src>:<replies>.<adds>.<reaps>.<barrier>.<deliveries>:<datagram-hex> ...
+//   nsrc fresh udp sockets are the session's senders.  Each datagram is sent from its sender; then the
+//   harness waits (each wait bounded by TMO, on the explicit condition) until that sender has received
+//   `replies` more datagrams from nng, `adds` more pipes were added and `reaps` more pipes had their REM_POST
+//   (the numbers are the Lean model's prediction, so that the next datagram meets a settled endpoint), then
+//   the `deliveries` messages the model expects from this datagram have reached the application, then
+//   (barrier=1) a control exchange shows that nng has read everything sent so far.
+//   -> "dgram <id> rx=<ops of sender 0>;<ops of sender 1>.. wt=<waits that timed out> ctl=.. ports=<p0>,<p1>.. pipes=<id>@<port>,.. n=<k> [D ...]"
 static void
 cmd_dgram(char **w, int nw)
 {
-	bool        fresh = w[2][0] == '1', closeit = w[3][0] == '1';
-	size_t      dfrom, afrom;
-	int         fd;
-	char        ops[256] = "";
-	const char *ctl      = NULL;
+	size_t      dfrom, afrom, rfrom, hfrom, adds = 0, reaps = 0, dels = 0;
+	int         nsrc = atoi(w[2]), wt = 0, rt0 = udp_retries;
+	udp_src     src[MAXSRC];
+	const char *ctl = NULL;
+	if (nsrc < 1 || nsrc > MAXSRC) {
+		printf("dgram %s FAIL:usage\n", w[1]);
+		return;
+	}
+	pthread_mutex_lock(&mtx);
+	dfrom = ndlog;
+	hfrom = nhostile;
+	afrom = nadded;
+	rfrom = nremoved + nrem_unadded;
+	pthread_mutex_unlock(&mtx);
+	for (int i = 0; i < nsrc; i++) {
+		struct sockaddr_in sa;
+		socklen_t          sl = sizeof(sa);
+		memset(&src[i], 0, sizeof(src[i]));
+		src[i].fd = udp_socket();
+		if (src[i].fd < 0 || getsockname(src[i].fd, (struct sockaddr *) &sa, &sl) != 0) {
+			printf("dgram %s FAIL:socket-%d\n", w[1], errno);
+			return;
+		}
+		src[i].port = ntohs(sa.sin_port);
+	}
+	for (int i = 3; i < nw; i++) {
+		int      k = 0, nrep = 0, nadd = 0, nreap = 0, barrier = 1, ndel = 0;
+		char    *c1 = strchr(w[i], ':'), *c2 = c1 ? strchr(c1 + 1, ':') : NULL;
+		size_t   len;
+		uint8_t *b;
+		if (c2 == NULL || sscanf(w[i], "%d:%d.%d.%d.%d.%d:", &k, &nrep, &nadd, &nreap, &barrier, &ndel) != 6 || k < 0 || k >= nsrc) {
+			continue;
+		}
+		b = rp_parse_bytes(c2 + 1, &len);
+		(void) sendto(src[k].fd, b, len, 0, (struct sockaddr *) &udp_addr, sizeof(udp_addr));
+		free(b);
+		if (nrep > 0) {
+			int want = src[k].nrep + nrep;
+			src_collect(&src[k], want, TMO);
+			if (src[k].nrep < want) {
+				wt++;
+			}
+		}
+		adds += (size_t) nadd;
+		reaps += (size_t) nreap;
+		if (nadd > 0 && !wait_added(afrom + adds, TMO)) {
+			wt++;
+		}
+		if (nreap > 0 && !wait_reaped(rfrom + reaps, TMO)) {
+			wt++;
+		}
+		if (ndel > 0) {
+			// the delivery the model expects from this datagram (nng may complete receives of different pipes in
+			// any order, so a control exchange alone does not prove that it has reached the application)
+			dels += (size_t) ndel;
+			if (!wait_deliveries(hfrom + dels, TMO / 2)) {
+				wt++;
+				dels = 0;
+				pthread_mutex_lock(&mtx);
+				hfrom = nhostile;
+				pthread_mutex_unlock(&mtx);
+			}
+		}
+		if (barrier && ctl == NULL && udp_ctl_fd >= 0) {
+			ctl = ctl_exchange();
+		}
+	}
+	if (ctl == NULL && udp_ctl_fd >= 0) {
+		ctl = ctl_exchange();
+	}
+	printf("dgram %s rx=", w[1]);
+	for (int i = 0; i < nsrc; i++) {
+		src_collect(&src[i], -1, 0); // whatever else nng sent, without waiting
+		printf("%s%s", i ? ";" : "", src[i].ops[0] ? src[i].ops : "-");
+	}
+	printf(" wt=%d rt=%d ctl=%s%s ports=", wt, udp_retries - rt0, ctl ? "FAIL:" : "ok", ctl ? ctl : "");
+	for (int i = 0; i < nsrc; i++) {
+		printf("%s%d", i ? "," : "", src[i].port);
+		close(src[i].fd);
+	}
+	print_deliveries(dfrom, afrom);
+	printf("\n");
+}
+
+// dflood <id> <n> <datagram-hex>...   n senders each send all the datagrams at once (no waiting in between),
+//   a control exchange runs while their associations are up, every sender then says DISC; all pipes the flood
+//   caused must go away.   -> "dflood <id> opened=<k> add=<n> rem=<n> ctl=.. pipes=.. n=<k> [D ...]"
+static void
+cmd_dflood(char **w, int nw)
+{
+	int         n = atoi(w[2]), opened = 0;
+	int        *fds = calloc((size_t) n + 1, sizeof(int));
+	size_t      dfrom, afrom, rfrom;
+	const char *ctl;
+	uint8_t     d[8];
 	pthread_mutex_lock(&mtx);
 	dfrom = ndlog;
 	afrom = nadded;
+	rfrom = nremoved;
 	pthread_mutex_unlock(&mtx);
-	if (fresh) {
-		fd = udp_socket();
-	} else {
-		if (udp_sess_fd < 0) {
-			udp_sess_fd = udp_socket();
-		}
-		fd = udp_sess_fd;
-	}
-	for (int i = 4; i < nw && ctl == NULL; i++) {
-		size_t   len;
-		uint8_t *b = rp_parse_bytes(w[i], &len);
-		(void) sendto(fd, b, len, 0, (struct sockaddr *) &udp_addr, sizeof(udp_addr));
-		free(b);
-		ctl = ctl_exchange(); // barrier: nng handles datagrams in arrival order
-	}
-	// what nng sent back (op codes), without waiting
-	for (;;) {
-		uint8_t buf[2048];
-		ssize_t n = udp_recv(fd, buf, sizeof(buf), 0);
-		size_t  l = strlen(ops);
-		if (n < 0) {
+	for (int i = 0; i < n; i++) {
+		if ((fds[i] = udp_socket()) < 0) {
 			break;
 		}
-		if (l + 4 < sizeof(ops)) {
-			snprintf(ops + l, sizeof(ops) - l, "%s%d", l ? "," : "", n >= 2 ? buf[1] : -1);
+		opened++;
+		for (int j = 3; j < nw; j++) {
+			size_t   len;
+			uint8_t *b = rp_parse_bytes(w[j], &len);
+			(void) sendto(fds[i], b, len, 0, (struct sockaddr *) &udp_addr, sizeof(udp_addr));
+			free(b);
 		}
 	}
-	if (fresh) {
-		close(fd);
-	} else if (closeit) {
-		uint8_t d[8];
-		udp_hdr(d, 3, peer_proto, 0, 0); // DISC: lets nng forget the association
-		(void) sendto(fd, d, 8, 0, (struct sockaddr *) &udp_addr, sizeof(udp_addr));
-		if (ctl == NULL) {
-			ctl = ctl_exchange();
+	ctl = ctl_exchange();
+	udp_hdr(d, 3, peer_proto, 0, 0);
+	for (int i = 0; i < opened; i++) {
+		if (i % 3 != 2) { // every third sender just disappears: nng keeps that pipe until it expires or the socket closes
+			(void) sendto(fds[i], d, 8, 0, (struct sockaddr *) &udp_addr, sizeof(udp_addr));
 		}
-		(void) wait_balanced(1, TMO);
-		close(fd);
-		udp_sess_fd = -1;
 	}
-	printf("dgram %s rx=%s ctl=%s%s", w[1], ops[0] ? ops : "-", ctl ? "FAIL:" : "ok", ctl ? ctl : "");
+	if (ctl == NULL) {
+		ctl = ctl_exchange();
+	}
+	for (int i = 0; i < opened; i++) {
+		close(fds[i]);
+	}
+	pthread_mutex_lock(&mtx);
+	printf("dflood %s opened=%d add=%zu rem=%zu", w[1], opened, nadded - afrom, nremoved - rfrom);
+	pthread_mutex_unlock(&mtx);
+	printf(" ctl=%s%s", ctl ? "FAIL:" : "ok", ctl ? ctl : "");
 	print_deliveries(dfrom, afrom);
 	printf("\n");
+	free(fds);
+}
+
+// ctl_burst <n> [<fill>]: the control peer sends n messages (each with <fill> extra payload bytes) one after the other WITHOUT waiting in between (a well-behaved
+// peer may do that), then the harness waits (bounded) until the application has received all of them; nothing is
+// repeated.  -> "ctl_burst ok n=<n>" | "ctl_burst FAIL:<k>-of-<n>-delivered"
+static void
+cmd_ctl_burst(int n, size_t fill)
+{
+	size_t  from;
+	uint8_t tag[8], pl[96 + 8000];
+	int     got = 0;
+	if (n < 1 || n > 12 || fill > 8000 || proto == P_REQ || proto == P_SURVEYOR || needs_reply()) {
+		printf("ctl_burst FAIL:usage\n");
+		return;
+	}
+	pthread_mutex_lock(&mtx);
+	from = ndlog;
+	pthread_mutex_unlock(&mtx);
+	for (int k = 0; k < n; k++) {
+		size_t len = 0;
+		ctl_seq++;
+		for (int i = 0; i < 8; i++) {
+			tag[i] = (uint8_t) ((0xC7A0000000000000ull | ctl_seq) >> (8 * (7 - i)));
+		}
+		if (proto == P_PAIR1) {
+			pl[len++] = 0;
+			pl[len++] = 0;
+			pl[len++] = 0;
+			pl[len++] = 1;
+		} else if (proto == P_SUB) {
+			memcpy(pl, subpre, subprelen);
+			len = subprelen;
+		}
+		memset(pl + len, 0x5a, fill);
+		len += fill;
+		memcpy(pl + len, tag, 8);
+		(void) ctl_send(pl, len + 8);
+	}
+	for (int k = n - 1; k >= 0; k--) {
+		for (int i = 0; i < 8; i++) {
+			tag[i] = (uint8_t) ((0xC7A0000000000000ull | (ctl_seq - (uint64_t) k)) >> (8 * (7 - i)));
+		}
+		if (wait_ctl_delivery(from, tag, got == n - 1 - k ? TMO / 2 : 0)) {
+			got++;
+		}
+	}
+	if (got == n) {
+		printf("ctl_burst ok n=%d\n", n);
+	} else {
+		printf("ctl_burst FAIL:%d-of-%d-delivered\n", got, n);
+	}
 }
 
 static void
@@ -1160,10 +1452,6 @@ cmd_close(void)
 	pthread_mutex_lock(&mtx);
 	dfrom = ndlog;
 	pthread_mutex_unlock(&mtx);
-	if (udp_sess_fd >= 0) {
-		close(udp_sess_fd);
-		udp_sess_fd = -1;
-	}
 	nng_socket_close(sock);
 	if (ctl_fd >= 0) {
 		ctl_eof = rp_wait_closed(ctl_fd, TMO) ? 1 : 0;
@@ -1184,7 +1472,8 @@ cmd_close(void)
 	r = nremoved;
 	pthread_mutex_unlock(&mtx);
 	ctl_pipe = 0;
-	printf("close ok add=%zu rem=%zu ctl_eof=%d", a, r, ctl_eof);
+	printf("close ok add=%zu rem=%zu ctl_eof=%d retries=%d", a, r, ctl_eof, udp_retries);
+	udp_retries = 0;
 	print_deliveries(dfrom, a);
 	printf("\n");
 	pthread_mutex_lock(&mtx);
@@ -1209,6 +1498,9 @@ main(void)
 
 	signal(SIGPIPE, SIG_IGN);
 	signal(SIGALRM, on_alarm);
+	if (getenv("C11_TMO") != NULL && atoi(getenv("C11_TMO")) >= 1000) {
+		TMO = atoi(getenv("C11_TMO"));
+	}
 	pthread_condattr_init(&ca);
 	pthread_condattr_setclock(&ca, CLOCK_MONOTONIC);
 	pthread_cond_init(&cv, &ca);
@@ -1248,7 +1540,7 @@ main(void)
 			continue;
 		}
 		snprintf(curcmd, sizeof(curcmd), "%s %s", w[0], nw > 1 ? w[1] : "");
-		alarm(60);
+		alarm((unsigned) (12 * TMO / 1000 + 30));
 		if (strcmp(w[0], "open") == 0) {
 			cmd_open(w, nw);
 		} else if (!is_open) {
@@ -1257,11 +1549,15 @@ main(void)
 			cmd_sess(w, nw);
 		} else if (strcmp(w[0], "dgram") == 0 && nw >= 4 && tran == T_UDP) {
 			cmd_dgram(w, nw);
+		} else if (strcmp(w[0], "dflood") == 0 && nw >= 3 && tran == T_UDP) {
+			cmd_dflood(w, nw);
 		} else if (strcmp(w[0], "flood") == 0 && nw >= 3) {
 			cmd_flood(w, nw);
 		} else if (strcmp(w[0], "ctl") == 0) {
 			const char *r = ctl_exchange();
 			printf("ctl %s%s\n", r ? "FAIL:" : "ok", r ? r : "");
+		} else if (strcmp(w[0], "ctl_burst") == 0 && nw >= 2) {
+			cmd_ctl_burst(atoi(w[1]), nw > 2 ? (size_t) atoi(w[2]) : 0);
 		} else if (strcmp(w[0], "ctl_drop") == 0) {
 			ctl_drop();
 			printf("ctl_drop ok\n");
